@@ -6,7 +6,7 @@ No rtamt import.
 import os
 import re
 
-GRAMMAR_DIR = '/repo/rtamt/antlr/grammar/tl'
+GRAMMAR_DIR = os.path.join(os.environ.get('VERIF_REPO') or '/repo', 'rtamt/antlr/grammar/tl')
 
 KEYWORDS = {
     '-': 'MINUS', '+': 'PLUS', '*': 'TIMES', '/': 'DIVIDE', '(': 'LPAREN', ')': 'RPAREN', '{': 'LBRACE', '}': 'RBRACE',
